@@ -3,6 +3,7 @@ import CoapVerif.Model.Persist
 three persistence files at every crash point and the state a restarted server reaches from there.
 Mirrors harness/persist.c (same event words, same request packets, same canonical strings). -/
 -- DRIVER-OPS: persist => Coap.Driver.Persist.step
+-- DRIVER-OPS: persistep => Coap.Driver.Persist.stepEp
 namespace Coap.Driver.Persist
 open Coap Coap.Persist Coap.Persist.Op Coap.Persist.Name
 
@@ -42,8 +43,27 @@ def pktInfo : PktInfo := fun pkt =>
   | _ :: _ :: _ :: _ :: c :: i :: v :: 0xAA :: _ => if i.toNat < nRes then some (nameOf i.toNat, c.toNat, v.toNat) else none
   | _ => none
 
-def mkRec (client : Nat) (pkt : Bytes) (key : Nat) : ObsRec :=
-  ⟨key, 1, List.replicate szAddr 0, le szTuple client, pkt, none⟩
+/-- the server configuration of a case: the kinds of the UDP endpoints in creation order (`persist`: one endpoint of kind 0;
+`persistep <f> <kinds>`: 1–3 distinct kinds) and the number of clients.  Client `c` talks to the endpoint at position
+`(c / 3) % #endpoints` (so a client = a session belongs to one endpoint, as in libcoap). -/
+structure Cfg where
+  kinds : List Nat
+  nCli : Nat
+
+/-- `bind_addr` of an endpoint of kind `k` as `coap_address_t` bytes (x86-64: socklen_t size = 16, sockaddr_in, zero padding):
+0 = 127.0.0.1:45683, 1 = 127.0.0.1:45685, 2 = 127.0.0.2:45683 -/
+def epAddr (k : Nat) : Bytes :=
+  let port := if k = 1 then 45685 else 45683
+  let host : Nat := if k = 2 then 2 else 1
+  le 4 16 ++ [2, 0, UInt8.ofNat (port / 256), UInt8.ofNat (port % 256), 127, 0, 0, UInt8.ofNat host] ++ List.replicate 20 0
+
+def Cfg.epOf (cfg : Cfg) (client : Nat) : Ep := ⟨protoUdp, epAddr (cfg.kinds.getD ((client / 3) % cfg.kinds.length) 0)⟩
+
+/-- `context->endpoint`: coap_new_endpoint() prepends -/
+def Cfg.eps (cfg : Cfg) : List Ep := (cfg.kinds.map fun k => (⟨protoUdp, epAddr k⟩ : Ep)).reverse
+
+def mkRec (cfg : Cfg) (client : Nat) (pkt : Bytes) (key : Nat) : ObsRec :=
+  ⟨key, protoUdp, (cfg.epOf client).addr, le szTuple client, pkt, none⟩
 
 /-! ### canonical strings -/
 
@@ -156,9 +176,9 @@ def sentStr (s : Sent) : String :=
   joinOr "," ((s.filter (fun p => !p.2.isEmpty)).map fun (i, l) => toString i ++ "=" ++ "/".intercalate (l.map toString)) "-"
 
 /-- `D:…;O:…;C:…;T:…;R:…;S:…;N:…;P:…` for the disk a killed process leaves behind -/
-def stateStr (disk : Name → Option Bytes) (f nextKey : Nat) (sent : Sent) : String :=
+def stateStr (cfg : Cfg) (disk : Name → Option Bytes) (f nextKey : Nat) (sent : Sent) : String :=
   let fs : FS := ⟨disk, fun _ => none, fun _ => none⟩
-  let (srv, _, _) := startup pktInfo fs f nextKey
+  let (srv, _, _) := startup pktInfo cfg.eps fs f nextKey
   let byIdx := (List.range nRes).filterMap fun i => (srv.find (nameOf i)).map fun r => (i, r)
   let rS := joinOr "," (byIdx.map fun (i, r) => toString i ++ "@" ++ toString r.observe) "-"
   let subs := byIdx.foldl (fun acc (i, r) => r.subs.foldl (fun acc s => insertSorted (s.client, i, s.ver) acc) acc) []
@@ -178,12 +198,12 @@ structure St where
 def parseNat? (s : String) : Option Nat := s.toNat?
 
 /-- (new state, ops of the event, values sent at its end); `none` = malformed event word -/
-def runEvent (st : St) (ev : String) : Option (St × List Op × Sent) :=
+def runEvent (cfg : Cfg) (st : St) (ev : String) : Option (St × List Op × Sent) :=
   let kind := ev.take 1
   let args := ((ev.drop 1).toString.splitOn ".").map parseNat?
   let kind := kind.toString
   if ev = "r" then
-    let (srv, fs, ops) := startup pktInfo ⟨st.fs.disk, fun _ => none, fun _ => none⟩ st.srv.f st.srv.nextKey
+    let (srv, fs, ops) := startup pktInfo cfg.eps ⟨st.fs.disk, fun _ => none, fun _ => none⟩ st.srv.f st.srv.nextKey
     some ({ st with srv := srv, fs := fs }, ops, st.sent)
   else match kind, args with
   | "c", [some i] => if i < nRes then
@@ -195,11 +215,11 @@ def runEvent (st : St) (ev : String) : Option (St × List Op × Sent) :=
       -- a resource created later under the same name is a new resource: the record of sent values starts afresh
       some ({ st with srv := srv, fs := fs, mid := st.mid + 1 }, ops,
             st.sent.map fun (j, l) => if j = i then (j, []) else (j, l)) else none
-  | "a", [some c, some i, some v] => if c < nCli ∧ i < nRes ∧ v < 10 then
+  | "a", [some c, some i, some v] => if c < cfg.nCli ∧ i < nRes ∧ v < 10 then
       let pkt := mkReq 1 st.mid [UInt8.ofNat c, UInt8.ofNat i, UInt8.ofNat v, 0xAA] (nameOf i) (some 0) []
-      let (srv, fs, ops) := evObserve st.srv st.fs (nameOf i) c v (mkRec c pkt)
+      let (srv, fs, ops) := evObserve st.srv st.fs (nameOf i) c v (mkRec cfg c pkt)
       some ({ st with srv := srv, fs := fs, mid := st.mid + 1 }, ops, st.sent) else none
-  | "x", [some c, some i, some v] => if c < nCli ∧ i < nRes ∧ v < 10 then
+  | "x", [some c, some i, some v] => if c < cfg.nCli ∧ i < nRes ∧ v < 10 then
       let (srv, fs, ops) := evCancel st.srv st.fs (nameOf i) c
       some ({ st with srv := srv, fs := fs, mid := st.mid + 1 }, ops, st.sent) else none
   | "n", [some i] => if i < nRes then
@@ -212,13 +232,13 @@ def runEvent (st : St) (ev : String) : Option (St × List Op × Sent) :=
   | _, _ => none
 
 /-- the `k-range{state}` list: state for "killed immediately before the k-th op", k = 1 … K+1 -/
-def crashStates (st : St) (ops : List Op) (sentAfter : Sent) (sentDuring : Sent) : List String :=
+def crashStates (cfg : Cfg) (st : St) (ops : List Op) (sentAfter : Sent) (sentDuring : Sent) : List String :=
   let K := ops.length
   -- walk through the ops keeping the current file system
   let (_, _, acc) := (List.range (K + 1)).foldl (fun (s : FS × List Op × List String) k =>
       let (fs, rest, acc) := s
       let disk := crashDisk fs (fun _ => 0)
-      let str := stateStr disk st.srv.f st.srv.nextKey (if k = K then sentAfter else sentDuring)
+      let str := stateStr cfg disk st.srv.f st.srv.nextKey (if k = K then sentAfter else sentDuring)
       match rest with
       | [] => (fs, [], str :: acc)
       | op :: r => (Persist.step fs op, r, str :: acc)) (st.fs, ops, [])
@@ -235,28 +255,40 @@ def ranges (xs : List String) : List String :=
 where rangeS (a b : Nat) (s : String) : String :=
   (if a = b then toString a else toString a ++ "-" ++ toString b) ++ "{" ++ s ++ "}"
 
-def step (args : List String) : String :=
+def stepCfg (cfg : Cfg) (args : List String) : String :=
   match args with
   | fS :: evs =>
     match fS.toNat? with
     | none => "bad-op"
     | some f =>
       if f < 1 ∨ f > 1000 then "bad-op" else
-      let st0 : St := ⟨⟨[], 1000, f⟩, FS.empty, 100, (List.range nRes).map fun i => (i, [])⟩
+      let st0 : St := ⟨⟨[], 1000, f, cfg.eps⟩, FS.empty, 100, (List.range nRes).map fun i => (i, [])⟩
       -- the initial server start-up on the empty directory performs three failing fopen()s: no effect
       let (out, _, _) := evs.foldl (fun (acc : String × St × Bool) ev =>
           let (out, st, bad) := acc
           if bad then acc else
-          match runEvent st ev with
+          match runEvent cfg st ev with
           | none => (out ++ " bad-op", st, true)
           | some (st', ops, sentAfter) =>
             let sentDuring := if ev.take 1 == "j" then sentAfter else st.sent
             let log := opLog st.fs ops
-            let states := ranges (crashStates st ops sentAfter sentDuring)
+            let states := ranges (crashStates cfg st ops sentAfter sentDuring)
             (out ++ " [" ++ ev ++ " L=" ++ joinOr " " log "-" ++ " K=" ++ toString ops.length ++
               String.join (states.map (" " ++ ·)) ++ "]", { st' with sent := sentAfter }, false))
         ("M f=" ++ toString f, st0, false)
       out
+  | _ => "bad-op"
+
+/-- `persist <f> ev…`: one endpoint (127.0.0.1:45683), clients 0..2 -/
+def step (args : List String) : String := stepCfg ⟨[0], nCli⟩ args
+
+/-- `persistep <f> <kinds> ev…`: `<kinds>` = 1..3 distinct digits of 0..2, the endpoints in creation order; clients 0..8 -/
+def stepEp (args : List String) : String :=
+  match args with
+  | fS :: kS :: evs =>
+    let ks := kS.toList.map fun ch => ch.toNat - 48
+    if ks.isEmpty ∨ ks.length > 3 ∨ !(kS.toList.all fun ch => ch = '0' ∨ ch = '1' ∨ ch = '2') ∨ !ks.Nodup then "bad-op"
+    else stepCfg ⟨ks, 3 * nCli⟩ (fS :: evs)
   | _ => "bad-op"
 
 end Coap.Driver.Persist
